@@ -138,14 +138,34 @@ theorem revChar_of_ident_not_dash {c : Char} (h : isIdentChar c = true) (hd : c 
   · exact Or.inl (Or.inl (Or.inr h))
   · exact Or.inr h
 
-theorem matchUpstreamRev_ident (body : Str) (hb : isIdent body = true) :
+/-- on a non-empty text of upstream-version characters (identifier characters and ':') the regex
+    splits exactly as `splitRev` -/
+theorem matchUpstreamRev_body (body : Str) (hne : body ≠ []) (hall : ∀ c ∈ body, isUpstreamChar c = true) :
     matchUpstreamRev body = some (splitRev body) := by
-  obtain ⟨hne, hall⟩ := (isIdent_iff body).1 hb
-  have hup : body.all isUpstreamChar = true := by
-    rw [List.all_eq_true]; exact fun c hc => isUpstreamChar_of_ident (hall c hc)
+  have hup : body.all isUpstreamChar = true := by rw [List.all_eq_true]; exact hall
   have hemp : body.isEmpty = false := by cases body <;> simp at hne ⊢
   simp only [matchUpstreamRev, hemp, hup, Bool.not_true, Bool.or_self, Bool.false_eq_true, ↓reduceIte,
     splitRev]
+  cases hs : splitLastDash body with
+  | none => rfl
+  | some p =>
+    obtain ⟨b, a⟩ := p
+    simp only
+    split <;> rfl
+
+theorem matchUpstreamRev_ident (body : Str) (hb : isIdent body = true) :
+    matchUpstreamRev body = some (splitRev body) := by
+  obtain ⟨hne, hall⟩ := (isIdent_iff body).1 hb
+  exact matchUpstreamRev_body body hne fun c hc => isUpstreamChar_of_ident (hall c hc)
+
+/-- on an identifier the third condition of `splitRev` (the right side is a revision) is automatic: it
+    splits at the last hyphen whenever both sides are non-empty -/
+theorem splitRev_ident (body : Str) (hb : isIdent body = true) :
+    splitRev body = match splitLastDash body with
+      | some (b, a) => if !b.isEmpty && !a.isEmpty then (b, some a) else (body, none)
+      | none => (body, none) := by
+  obtain ⟨hne, hall⟩ := (isIdent_iff body).1 hb
+  simp only [splitRev]
   cases hs : splitLastDash body with
   | none => rfl
   | some p =>
@@ -158,15 +178,47 @@ theorem matchUpstreamRev_ident (body : Str) (hb : isIdent body = true) :
       have hcb : c ∈ body := by rw [hbody]; simp [hc]
       exact revChar_of_ident_not_dash (hall c hcb) (fun e => hnd (e ▸ hc))
     simp [harev]
-    split <;> rfl
+
+/-- every character of a text is the separator or lies in one of the pieces -/
+theorem mem_splitOn (sep : Char) (s : Str) (c : Char) (hc : c ∈ s) :
+    c = sep ∨ ∃ q ∈ Text.splitOn sep s, c ∈ q := by
+  have h : c ∈ ((Text.splitOn sep s).map fun q => sep :: q).flatten := by
+    rw [splitOn_flatten]; simp [hc]
+  simp only [List.mem_flatten, List.mem_map] at h
+  obtain ⟨l, ⟨q, hq, rfl⟩, hcl⟩ := h
+  rcases List.mem_cons.1 hcl with h | h
+  · exact Or.inl h
+  · exact Or.inr ⟨q, hq, h⟩
+
+/-- the body of a well-formed version: non-empty, identifier characters and — with an epoch — ':' -/
+theorem VersionA.body_upstream (v : VersionA) (hv : v.ok = true) :
+    v.body ≠ [] ∧ ∀ c ∈ v.body, isUpstreamChar c = true := by
+  obtain ⟨hb, hm, _⟩ := (VersionA.ok_iff v).1 hv
+  cases v with
+  | mk epoch body =>
+    cases epoch with
+    | none =>
+      obtain ⟨hne, hall⟩ := (isIdent_iff _).1 hb
+      exact ⟨hne, fun c hc => isUpstreamChar_of_ident (hall c hc)⟩
+    | some e =>
+      simp only [VersionA.more] at hm
+      refine ⟨?_, fun c hc => ?_⟩
+      · rintro rfl
+        have := hm [] (by simp [Text.splitOn])
+        simp [isIdent] at this
+      · rcases mem_splitOn ':' body c hc with rfl | ⟨q, hq, hcq⟩
+        · decide
+        · exact isUpstreamChar_of_ident (((isIdent_iff q).1 (hm q hq)).2 c hcq)
 
 /-- the version that was written always parses, to the value that was written -/
 theorem Version.parse_written (v : VersionA) (hv : v.ok = true) : Version.parse v.str = some v.value := by
-  obtain ⟨hb, he⟩ := (VersionA.ok_iff v).1 hv
-  have hm := matchUpstreamRev_ident v.body hb
+  obtain ⟨hb, _, he⟩ := (VersionA.ok_iff v).1 hv
+  obtain ⟨hbne, hbup⟩ := VersionA.body_upstream v hv
+  have hm := matchUpstreamRev_body v.body hbne hbup
   cases hep : v.epoch with
   | none =>
-    obtain ⟨hne, hall⟩ := (isIdent_iff v.body).1 hb
+    have hb' : isIdent v.body = true := by simpa [VersionA.first, hep] using hb
+    obtain ⟨hne, hall⟩ := (isIdent_iff v.body).1 hb'
     have hnoepoch : ∀ rest, v.body.dropWhile isAsciiDigit ≠ ':' :: rest := by
       intro rest hh
       have hmem : ':' ∈ v.body.dropWhile isAsciiDigit := by rw [hh]; simp
@@ -303,7 +355,14 @@ theorem vtF_gap (g : Gap) : (tks (gapToks g)).filterMap vtF = [] := by
   | cons p g ih => cases p <;> simpa [gapToks, GapPiece.tok, tks, tk, vtF] using ih
 
 theorem vtF_ver (v : VersionA) : ((tks v.toks).filterMap vtF).flatten = v.str := by
-  cases he : v.epoch <;> simp [VersionA.toks, VersionA.str, he, tks, tk, vtF]
+  have key : ∀ qs : List Str, ((tks (colonTail qs)).filterMap vtF).flatten
+      = (qs.map fun q => ':' :: q).flatten := by
+    intro qs
+    induction qs with
+    | nil => rfl
+    | cons q qs ih => simp [tk, vtF, ih]
+  rw [VersionA.str_eq]
+  simp [VersionA.toks, tk, vtF, key]
 
 theorem versionText_ver (v : VerPart) : versionText v.node = v.ver.str := by
   simp only [VerPart.node, versionText_node, List.filterMap_cons, List.filterMap_append, vtF_gap]
@@ -324,7 +383,8 @@ theorem version_rel (r : RelA) (tail : List Tok) (hr : r.ok = true) :
     have hne : v.ver.str ≠ [] := by
       obtain ⟨hb, _⟩ := (VersionA.ok_iff v.ver).1 hvok
       obtain ⟨hne, _⟩ := (isIdent_iff _).1 hb
-      cases hep : v.ver.epoch <;> cases hbody : v.ver.body <;> simp_all [VersionA.str]
+      rw [VersionA.str_eq]
+      simp [hne]
     have hcn : childNodes .CONSTRAINT v.node = cn .CONSTRAINT v.node.children := by
       simp [VerPart.node, childNodes_node, Node.children]
     simp [hcn, hc, hne, constraint_text, VC.parse_display, versionText_ver, Version.parse_written _ hvok]
